@@ -32,6 +32,9 @@ var stdParts = map[string]string{
 	"badblk":  `<% contentFor("bb") { %><% cntT() %><%= undefinedThing %><% } %><%= contentOf("bb") %>`,
 	"failing": `x<%= fail1() %>`,
 	"synerr":  `<%= ( %>`,
+	"tree":    `[<%= n %><%= if (n > 0) { %><%= partial("tree", {n: n - 1}) %><% } %>]`,
+	"ping":    `(<%= n %><%= if (n > 0) { %><%= partial("pong", {n: n - 1}) %><% } %>)`,
+	"pong":    `{<%= n %><%= partial("ping", {n: n - 1}) %>}`,
 	"nested":  `<%= partial("p.html", {who: "n"}) %>!`,
 }
 
